@@ -211,6 +211,23 @@ CLAIMED = {
         "case). QueueReader.read / readline / iterqueue (same loop shape) not under contract. Observation (not claimed either way): whether a one-line "
         "`.out` keeps its final newline depends on how many chunks the line arrived in. Trusted: pyvc engine + the two flat axioms + z3.",
    design="§3 C06"),
+ "C08": dict(
+   category="proof",
+   text="Over a ghost file system (regular(p), xok(p): pure during one call, consulted afresh by every call): locate_file_in_path_env, for every $PATH and name "
+        "(loop invariant over the directories): a result is pathstr(dir_k / name) for the FIRST k, in $PATH order, whose candidate is a regular file the process may "
+        "execute, and None only when no directory has one; is_executable_in_posix is true exactly for an executable regular file; locate_file never searches $PATH "
+        "for a name containing a separator and never the current directory for a bare name (is_explicit_path == '/' in name); the listing view "
+        "_yield_accessible_unix_file_names yields exactly the names of the executable regular files of a directory (soundness and completeness invariants over "
+        "scandir), i.e. the same test as the lookup; clear_paths is resolve -> de-duplicate -> keep existing. Every function on the lookup path carries a frame "
+        "clause `no result cache` (a memoised helper used on the path is a failed obligation). Bounded stand-in (not proved): all histories of 3 (thorough 4) "
+        "operations out of 15 (create / delete / chmod / mkdir / symlink-to-dir / broken link, $PATH reorder / duplicate / missing / symlinked entry, re-pointing a "
+        "symlinked entry) with locate_executable, `in`, the listing and locate_binary compared with an independent POSIX search after every step.",
+   note="KNOWN FINDING (recorded): chmod of a file is invisible to the mtime-keyed CommandsCache views. One genuine defect repaired (fix: b84b927: a reordered / "
+        "shortened $PATH left the merged command table stale). Unverified: what map / unique_everseen / filter compute in clear_paths and get_paths' double reversal "
+        "(bounded only), CommandsCache.update_cache / _update_paths_cache / _iter_binaries merging (bounded only), locate_relative_path, $PATHEXT / Windows, the opt-in "
+        "stable-directory listing cache ($XONSH_COMMANDS_CACHE_READ_DIR_ONCE: documented staleness, assumed empty), SubprocSpec.resolve_binary_loc beyond C15's clause, "
+        "file-system changes DURING one lookup. Trusted: pyvc engine + models + z3.",
+   design="§3 C08"),
 }
 NA = {
  "C01": "equivalence of two grammars (PLY LALR tables vs CPython's PEG parser) is not a function contract; no contract within reach can express or decide it (DESIGN §3 C01)",
